@@ -403,6 +403,9 @@ def run_property(P, tier, seed, replay=None):
 
     violation = bool(oracle_failures) or bool(tie_failures)
     replay_path = None
+    stale = os.path.join(VERIF, 'replays', f'{pid}-{seed}.json')
+    if not violation and os.path.exists(stale):
+        os.unlink(stale)
     if violation:
         os.makedirs(os.path.join(VERIF, 'replays'), exist_ok=True)
         replay_path = os.path.join('replays', f'{pid}-{seed}.json')
